@@ -217,6 +217,15 @@ def intervals(prog, pa, base, fixed=None):
             sub["obj:" + e[4]] = (("op:Add", off, lo) if off != 0 else lo,
                                   (("op:Add", off, hi) if off != 0 else hi) if hi is not None else ext)
             continue
+        if re.search(r"slice::<impl \[.*\]>::get_mut(::<.*>)?$", e[1]):
+            # `out.get_mut(range)`: the Some payload is the sub-slice out[range] (None = the bounds check failed)
+            lo, hi = _range(args[1] if len(args) > 1 else None)
+            if lo is None:
+                probs.append("get_mut with an unrecognised range %s" % show(args[1] if len(args) > 1 else None)[:60])
+                continue
+            sub["obj:%s.some" % e[4]] = (("op:Add", off, lo) if off != 0 else lo,
+                                         (("op:Add", off, hi) if off != 0 else hi) if hi is not None else ext)
+            continue
         if re.search(r"slice::<impl \[.*\]>::split_at_mut$", e[1]):
             mid = args[1] if len(args) > 1 else None
             if mid is None:
